@@ -831,7 +831,9 @@ class ListFamily(Family):
             pre.append("%s::precedence = %s" % (nm, psrc(p)))
             ops[nm] = Op(nm, "tree", p, "L", nm)
         for nm, target, kind, assoc in (("rp1", ".+", "rp", "R"), ("z1", "zip", "zip", "L"), ("z2", "zip", "zip", "L"),
-                                        ("w1", "with", "with", "L"), ("c1", "**", "cart", "L"), ("c2", "**", "cart", "L")):
+                                        ("w1", "with", "with", "L"), ("c1", "**", "cart", "L"),
+                                        # the builtin's second registered spelling: the same operator value
+                                        ("c2", "\u00d7", "cart", "L")):
             p = r.choice(ps)
             alias(pre, nm, target, p)
             ops[nm] = Op(nm, kind, p, assoc)
@@ -953,7 +955,8 @@ class CmpFamily(Family):
         for j, sym in enumerate(kinds):
             nm = "q%d" % (j + 1)
             p = r.choice(ps)
-            alias(pre, nm, sym, p)
+            # every other comparison through its second registered spelling where it has one
+            alias(pre, nm, {"<=": "\u2264", ">=": "\u2265"}.get(sym, sym) if j % 2 else sym, p)
             ops[nm] = Op(nm, "cmp", p, "L", sym)
         p = r.choice(ps)
         pre.append('gi1 := \\a, b -> if (a is int and b is int) a * 3 + b else throw "gi"')
